@@ -138,6 +138,12 @@ RULE_BREAKERS = [
     ('pivot-non-aggregate', 'SELECT s, t FROM #t PIVOT BY s, t', None),
     ('coalesce-mixed', 'SELECT coalesce(i, s) FROM #t', None),
     ('coalesce-empty', 'SELECT coalesce() FROM #t', None),
+    ('star-in-max', 'SELECT max(*) FROM #t', None),
+    ('star-in-first-last', 'SELECT s, first(*), last(*) FROM #t GROUP BY s', None),
+    ('star-in-scalar-functions', 'SELECT str(*), bool(*) FROM #t', None),
+    ('star-in-sum', 'SELECT sum(*) FROM #t', None),
+    ('star-in-length', 'SELECT length(*) FROM #t', None),
+    ('valid-count-star', 'SELECT count(*), s FROM #t GROUP BY s', None),
     ('coalesce-mixed-after-constant', "SELECT coalesce(s, '-', 0) FROM #t", None),
     ('coalesce-mixed-constants', "SELECT coalesce(1, 'a') FROM #t", None),
     ('coalesce-mixed-last', "SELECT coalesce(s, 'x', dt) FROM #t", None),
@@ -330,9 +336,51 @@ def clause_layer(ctx):
             ctx.record_violation(name, '%s -> %s (expected %s)' % (text_, out, want), payload={'text': text_})
 
 
+def sequence_layer(ctx):
+    """whether a statement is accepted does not depend on the statements compiled before it on the same connection (every
+    statement kind leaves the connection as it found it)"""
+    import ledgers
+    text, entries, errors, options = ledgers.gen_ledger(ctx.rng, ntxn=6)
+    conn = ledgers.connect(entries, errors, options)
+    statements = ['SELECT account, sum(number) GROUP BY account', 'PRINT', "PRINT FROM year >= 2019", 'SELECT position, entry.flag',
+                  'BALANCES', "JOURNAL 'Assets'", 'SELECT count(*) AS n', 'SELECT narration FROM #transactions', 'SELECT name FROM #commodities',
+                  'SELECT account FROM #accounts', 'SELECT date, type FROM #entries', 'SELECT nosuchcolumn', 'SELECT account FROM #nosuchtable',
+                  'SELECT account WHERE account IN (SELECT account FROM #accounts)', 'SELECT payee FROM OPEN ON 2020-01-01 CLOSE ON 2020-06-01']
+
+    def outcome(c, text_):
+        try:
+            compiler.compile(c, parser.parse(text_))
+            return 'OK'
+        except beanquery.ProgrammingError as exc:
+            return 'ERR %s' % type(exc).__name__
+        except Exception as exc:  # noqa: BLE001
+            return 'ERR py:%s' % type(exc).__name__
+    fresh = {t: outcome(ledgers.connect(entries, errors, options), t) for t in statements}
+    order = ctx.rng.shuffle(statements * 2)
+    # every statement at least once right after a PRINT
+    order = ['PRINT'] + [x for t in statements for x in (t, 'PRINT')] + order
+    for t in order:
+        got = outcome(conn, t)
+        ctx.evaluations += 1
+        ctx.count('sequence')
+        if got != fresh[t]:
+            ctx.record_violation('validation-depends-on-history', '%s -> %s after other statements, %s on a fresh connection' % (t, got, fresh[t]),
+                                 payload={'text': t})
+            return
+        if got.startswith('ERR py:'):
+            ctx.record_violation('non-dbapi-exception:%s:sequence' % got[7:], '%s -> %s' % (t, got), payload={'text': t})
+    # ... and the accepted SELECTs return what a fresh connection returns
+    for t in ('SELECT count(*) AS n', 'SELECT account, sum(number) GROUP BY account'):
+        a = conn.execute(t).fetchall()
+        b = ledgers.connect(entries, errors, options).execute(t).fetchall()
+        if a != b:
+            ctx.record_violation('validation-depends-on-history', '%s: %r on the used connection, %r on a fresh one' % (t, a[:3], b[:3]))
+
+
 def run(ctx):
     rng = ctx.rng
     clause_layer(ctx)
+    sequence_layer(ctx)
     table = std_table(rng, nrows=3)
     # FROM <expression> resolves against the connection's default table 'postings'
     postings = impl.HTable('postings', table.coldefs, table.rows)
